@@ -16,6 +16,8 @@ CONSTANTS
   MaxAnte = 0
   MaxBlocks = 0
   MaxSets = 0
+  MaxBounds = 0
   MaxLen = 0
+  Defects = {}
 INVARIANT NonThm_MonotoneEverywhere
 CHECK_DEADLOCK FALSE
